@@ -16,6 +16,9 @@ claimed = {
  "C04": ("model_checking", "A driver thread sits in Workstream.Wait; the storage read Wait performs is gated, so the state in which the waiter has been released is explicit. There the plan is read from the real vault and must be terminal, with nothing Running, no plugin call in flight, the cross-object consistency rules of the statement and an admissible reason; afterwards every remaining operation and two more timer ticks are executed and the plan must neither be invoked nor change. All orders of visible operations (and ticks) within the deviation bound for families F-seq, F-chk, F-cont (continuous check in flight when the plan ends by every route), F-sharp and two plans on one Workstream.", "§5 C04", MC_NOTE, MC_TECH),
  "C06": ("model_checking", "Every subset of the five check groups at plan or block level with 0/1 failing group (and both levels with two actions per group), sharp and continuous-check scenarios; all orders of visible operations within the deviation bound; each plugin invocation is checked against the bypass / pre-check / initial continuous-check outcomes that precede it, and the final stored plan against the gating rules (bypassed scope Completed and silent, failed bypass alone never fails, failed pre-check or initial continuous run => no sequence action and scope Failed).", "§5 C06", MC_NOTE, MC_TECH),
  "C07": ("model_checking", "Continuous checks failing at their k-th run at plan, block or both levels, with TICK (let the next timer fire) as an explorer action so that every position of the failing run relative to sequence boundaries is reached, incl. 'slow plugin' twins where time passes by default while an action executes; passing continuous checks with every other failure route and deferred checks present; a state predicate watches that the check thread never sits idle for a whole Delay while a sequence action executes; end-state predicates: a failed run fails the scope (ContCheck reason at plan level), deferred checks exactly once for entered scopes and never for bypassed ones, a deferred failure fails the scope.", "§5 C07", MC_NOTE, MC_TECH),
+ "C05": ("model_checking", "One scripted action (as a sequence action and as one of two parallel pre-check actions), Retries 0..2 (3), ALL canonical outcome scripts over {ok, nil response, transient, permanent, wrong type, overrun, late answer after the timeout}; the action timeout is 5 s of fake time and at every parked plugin call the explorer chooses between 'the plugin answers' and 'the next timer fires', all combinations within the deviation bound; invocation rules are state predicates at every invocation, and the attempts stored in the real vault are matched one to one, in order, with the invocations (own response, error kind, timeout recorded as retryable with the context cancelled, wrong type => permanent without response, start<=end).", "§5 C05", MC_NOTE, MC_TECH),
+ "C08": ("model_checking", "The real vault is read directly at every quiescent state of every explored execution (the finest polling history; any real poller sees a subsequence): at each plugin invocation the stored action must be Running with exactly the previous attempts, the previous action of the sequence durably Completed; when the waiter is released the stored plan is terminal with nothing Running; a block, sequence or sequence action once read as Completed/Failed never reads differently. All orders of storage writes and plugin calls within the deviation bound for F-seq, F-chk, F-sharp and retried sequences.", "§5 C08", MC_NOTE, MC_TECH),
+ "C12": ("model_checking", "ALL sequential API histories up to length 3 (4) over Start/Wait/Plan/Status on a known and an unknown id and a sleep past maxSubmit, issued by a driver thread while the engine runs; two and three concurrent drivers on one plan (all interleavings at storage-gate granularity within the bound, whole state space in the thorough tier); a panicking API call is caught in the driver, a panic or exit elsewhere kills the worker process and is reported from its write-ahead schedule. Predicates: no action invoked more often than one execution allows, a Start after a successful Start is rejected, rejected Starts have no side effects, stale submissions cannot be started, no panic/exit.", "§5 C12", MC_NOTE, MC_TECH),
 }
 
 checks = []
